@@ -89,6 +89,10 @@ var probeCompact = []emitted{
 		cSet("i1", "rsum", "three", "rpath", "r2.txt", "rclean", "r2.txt"), cCompact(), cCompact()),
 	hist(cNewEpic("E1"), cSet("i1", "title", "E1 renamed"), cSet("i1", "body", "epic body"), cCompact(), cCompact()),
 	hist(cNewTask("title", "A"), cNewTask("title", "B"), cNewTask("title", "C"), cCompact(), cClaim("a1"), cClaim("a2"), cClaim("a3")),
+	// what a crash inside the write of a two-event batch leaves behind (claimed but todo; doing but
+	// unclaimed cannot arise: the claim line comes first) must survive compaction as it is
+	hist(cNewTask("title", "A"), cNewTask("title", "B"), cClaim("a1"), cTear("cutlast"), cListReady(), cCompact(), cListReady(), cCompact(), cClaim("a2")),
+	hist(cNewTask("title", "A"), cSet("i1", "state", "doing", "claim", "a1", "agent", "a1"), cSet("i1", "state", "blocked", "title", "A2"), cTear("cutlast"), cCompact(), cCompact()),
 	// a line longer than the usual buffer sizes in the middle of shorter ones, across the whole-log writers
 	hist(cNewTask("title", "A", "body", "short"), cSet("i1", "body", "MID"), cNewTask("title", "B"), cSet("i2", "title", "B2"), cCompact(), cListReady(), cCompact()),
 	hist(cNewTask("title", "A", "body", "short"), cSet("i1", "body", "MID"), cSet("i1", "title", "A2"), cPlan("P", "x", "y"), cListReady(), cCompact()),
